@@ -237,6 +237,125 @@ pub fn ray(shard: usize, max_men: usize, f: Sink) {
 }
 
 // ---------------------------------------------------------------------------------------------
+// PIN2: two simultaneous pin (or x-ray) lines through the own king
+
+/// shard = own king square * 2 + side
+pub const PIN2_SHARDS: usize = 128;
+
+/// For every pair of different directions from the own king: on each ray an own man at distance
+/// i and an enemy slider at distance j > i (i, j <= max_dist), own men from {N, Q, P}, enemy men
+/// from {B, R, Q} (so that each line is a real pin, or not, by type); enemy king on a far square.
+pub fn pin2(shard: usize, max_dist: usize, f: Sink) {
+    let k = shard / 2;
+    let stm = (shard % 2) as u8;
+    let own = stm;
+    let opp = 1 - stm;
+    let owns = [mk(own, N), mk(own, Q), mk(own, P)];
+    let opps = [mk(opp, B), mk(opp, R), mk(opp, Q)];
+    let rays: Vec<Vec<usize>> = KG.iter().map(|&d| ray_squares(k, d)).collect();
+    for d1 in 0..8 {
+        for d2 in (d1 + 1)..8 {
+            let (r1, r2) = (&rays[d1], &rays[d2]);
+            if r1.len() < 2 || r2.len() < 2 {
+                continue;
+            }
+            // enemy king: first far square not on either ray and not near the own king
+            let ek = [0usize, 63, 7, 56, 27, 36, 2, 61, 16, 47].iter().cloned().find(|&c| {
+                c != k && !r1.contains(&c) && !r2.contains(&c) && ((file_of(c) - file_of(k)).abs() > 1 || (rank_of(c) - rank_of(k)).abs() > 1)
+            });
+            let Some(ek) = ek else { continue };
+            for i1 in 0..r1.len().min(max_dist) {
+                for j1 in (i1 + 1)..r1.len().min(max_dist + 1) {
+                    for i2 in 0..r2.len().min(max_dist) {
+                        for j2 in (i2 + 1)..r2.len().min(max_dist + 1) {
+                            for &o1 in &owns {
+                                for &e1 in &opps {
+                                    for &o2 in &owns {
+                                        for &e2 in &opps {
+                                            let mut p = Pos::empty();
+                                            p.stm = stm;
+                                            p.b[k] = mk(own, K);
+                                            p.b[ek] = mk(opp, K);
+                                            p.b[r1[i1]] = o1;
+                                            p.b[r1[j1]] = e1;
+                                            p.b[r2[i2]] = o2;
+                                            p.b[r2[j2]] = e2;
+                                            emit_if_valid(&p, f);
+                                        }
+                                    }
+                                }
+                            }
+                        }
+                    }
+                }
+            }
+        }
+    }
+}
+
+// ---------------------------------------------------------------------------------------------
+// OCC: the slider-table universe at position level: every subset of blockers on the rays of a
+// square, realised as a valid position
+
+/// shard = square
+pub const OCC_SHARDS: usize = 64;
+
+/// For the square `shard` and each slider geometry (rook lines, bishop lines): every subset of
+/// the squares on those lines is occupied by queens of colour X (at most 14), the kings stand on
+/// the first two admissible squares off the lines, and the side to move is the other colour Y
+/// (so the position is valid whatever the subset). Colour X alternates with the subset parity.
+pub fn occ(shard: usize, f: Sink) {
+    let s = shard;
+    for dirs in [&ORTH[..], &DIAG[..]] {
+        let mut rays: Vec<usize> = Vec::new();
+        for &d in dirs {
+            rays.extend(ray_squares(s, d));
+        }
+        let free: Vec<usize> = (0..64).filter(|c| *c != s && !rays.contains(c)).collect();
+        // kings: two non-adjacent squares off the lines
+        let mut ks = None;
+        'o: for &a in &free {
+            for &b in &free {
+                if a != b && ((file_of(a) - file_of(b)).abs() > 1 || (rank_of(a) - rank_of(b)).abs() > 1) {
+                    ks = Some((a, b));
+                    break 'o;
+                }
+            }
+        }
+        let Some((ka, kb)) = ks else { continue };
+        for sub in 0..(1u32 << rays.len()) {
+            let x = (sub.count_ones() % 2) as u8;
+            let mut p = Pos::empty();
+            p.stm = 1 - x;
+            p.b[ka] = mk(x, K);
+            p.b[kb] = mk(1 - x, K);
+            for (i, &sq_) in rays.iter().enumerate() {
+                if sub >> i & 1 != 0 {
+                    p.b[sq_] = mk(x, Q);
+                }
+            }
+            emit_if_valid(&p, f);
+            // mode B: a slider of colour X stands on the square itself and is to move; the
+            // blockers are knights of the other colour (captures and quiet moves along the lines)
+            let slider = if dirs[0] == ORTH[0] { R } else { B };
+            for piece in [slider, Q] {
+                let mut q = Pos::empty();
+                q.stm = x;
+                q.b[ka] = mk(x, K);
+                q.b[kb] = mk(1 - x, K);
+                q.b[s] = mk(x, piece);
+                for (i, &sq_) in rays.iter().enumerate() {
+                    if sub >> i & 1 != 0 {
+                        q.b[sq_] = mk(1 - x, N);
+                    }
+                }
+                emit_if_valid(&q, f);
+            }
+        }
+    }
+}
+
+// ---------------------------------------------------------------------------------------------
 // EP: en-passant shapes
 
 /// shard = own king square * 2 + side
